@@ -159,6 +159,40 @@ func TestEngine(t *testing.T) {
 		res := run(t, sc, wd)
 		wd.End()
 		evaluate(col, sc, res)
+		// fault enumeration (C04): for a systematic cell run without fault, every transport write
+		// that followed the deciding input is failed once (the transport is found dead at that write)
+		if i < nSys && sc.DeadAt == 0 {
+			before, total, seenIn := 0, 0, 0
+			nIn := 0
+			for _, st := range sc.Steps {
+				if st.Op == "msg" || st.Op == "coop" || st.Op == "data" {
+					nIn++
+				}
+			}
+			for _, e := range res.Evs {
+				if e.Kind == "in" {
+					seenIn++
+				}
+				if e.Kind == "write" || e.Kind == "write-refused" {
+					total++
+					if seenIn < nIn {
+						before++
+					}
+				}
+			}
+			_ = before
+			// the writes caused by the last delivered inputs: at most the last three
+			for k := total; k > 0 && k > total-3; k-- {
+				fs := *sc
+				fs.DeadAt = k
+				fs.ID = fmt.Sprintf("%s/fault-at-write-%d", sc.ID, k)
+				vc.Scn(fs.ID)
+				wd.Begin(fs.ID, func() any { return map[string]any{"scenario": fs} })
+				fres := run(t, &fs, wd)
+				wd.End()
+				evaluate(col, &fs, fres)
+			}
+		}
 		if i%2000 == 0 {
 			col.Write(false)
 		}
